@@ -16,15 +16,23 @@ Definition value_eqb (a b : value) : bool :=
   | VNone, VNone => true
   | VBool x, VBool y => Bool.eqb x y
   | VTok x, VTok y => x =? y
+  | VSeq x, VSeq y => zlist_eqb x y
   | _, _ => false
   end.
 
+Lemma zlist_eqb_eq : forall a b, zlist_eqb a b = true -> a = b.
+Proof.
+  induction a as [|x a IH]; destruct b as [|y b]; simpl; intros H; try discriminate; [reflexivity|].
+  apply andb_true_iff in H. destruct H as [H1 H2]. apply Z.eqb_eq in H1. subst. f_equal. auto.
+Qed.
+
 Lemma value_eqb_eq : forall a b, value_eqb a b = true -> a = b.
 Proof.
-  intros [x| |x|x] [y| |y|y]; simpl; intros H; try discriminate; try reflexivity.
+  intros [x| |x|x|x] [y| |y|y|y]; simpl; intros H; try discriminate; try reflexivity.
   - apply Z.eqb_eq in H. congruence.
   - apply Bool.eqb_prop in H. congruence.
   - apply Z.eqb_eq in H. congruence.
+  - apply zlist_eqb_eq in H. congruence.
 Qed.
 
 Fixpoint sval_eqb (a b : sval) : bool :=
@@ -36,6 +44,7 @@ Fixpoint sval_eqb (a b : sval) : bool :=
   | SVarg i, SVarg j => Nat.eqb i j
   | SKeyX x, SKeyX y => sval_eqb x y
   | SKeyY x, SKeyY y => sval_eqb x y
+  | SFirst x, SFirst y => sval_eqb x y
   | _, _ => false
   end.
 
@@ -47,6 +56,7 @@ Proof.
   - apply andb_true_iff in H. destruct H as [H1 H2].
     apply String.eqb_eq in H1. apply String.eqb_eq in H2. congruence.
   - apply Nat.eqb_eq in H. congruence.
+  - f_equal. auto.
   - f_equal. auto.
   - f_equal. auto.
 Qed.
@@ -175,6 +185,7 @@ Fixpoint seval (se : senv) (svar : option (list sval)) (x : expr) : option sval 
   | EOpq t => Some (SConst (VTok t))
   | EKeyX a => match seval se svar a with Some s => Some (SKeyX s) | None => None end
   | EKeyY a => match seval se svar a with Some s => Some (SKeyY s) | None => None end
+  | EFirst a => match seval se svar a with Some s => Some (SFirst s) | None => None end
   end.
 
 Fixpoint seval_list (se : senv) (svar : option (list sval)) (l : list expr) : option (list sval) :=
@@ -343,6 +354,9 @@ Proof.
   - destruct (seval se svar x) as [s0|]; [|discriminate]. inversion Hs; subst.
     destruct (eval e x) as [u|]; [|discriminate]. simpl. exists u. split; [|exact He].
     apply IHx; auto. split; assumption.
+  - destruct (seval se svar x) as [s0|]; [|discriminate]. inversion Hs; subst.
+    destruct (eval e x) as [u|]; [|discriminate]. simpl. exists u. split; [|exact He].
+    apply IHx; auto. split; assumption.
 Qed.
 
 Definition args_agree (g : callctx) (spos : list sval) (vpos : list value) : Prop :=
@@ -398,7 +412,7 @@ Proof.
     destruct (seval_fields se svar r) as [ss|]; [|discriminate].
     destruct (eval e x) as [v0|] eqn:E2; [|discriminate].
     destruct (eval_fields e r) as [[vs|]|]; try discriminate.
-    destruct (as_int v0); [|discriminate].
+    destruct (field_value_ok k v0); [|discriminate].
     inversion Hs; inversion He; subst. constructor; [|eauto].
     simpl. repeat split. eapply seval_sound; eauto.
 Qed.
@@ -676,7 +690,7 @@ Proof.
                  end) in Hc.
     set (scalar := is_one (chk_body callk se svar b2 exp)) in Hc.
     assert (Hn : n = 1%nat /\ match iter_len v with Some _ => each = true | None => scalar = true end).
-    { destruct sv as [a0|v0| |m0 n0|i0|a0|a0]; simpl in Hd;
+    { destruct sv as [a0|v0| |m0 n0|i0|a0|a0|a0]; simpl in Hd;
         try (destruct each; destruct scalar; simpl in Hc; try discriminate Hc; inversion Hc;
              split; [reflexivity|]; destruct (iter_len v); reflexivity).
       subst v0. destruct (iter_len v).
